@@ -80,7 +80,7 @@ func TestVerif_C08Cache(t *testing.T) {
 		Dist: map[string]interface{}{}, Hits: []c08cHit{}}
 	counts := map[string]int{}
 	seen := map[string]bool{}
-	users := []string{"", "alice", "bob", "Carol"}
+	users := []string{"", "alice", "bob", "Carol", "Alice", "carol"}
 	base := time.Date(2026, 10, 1, 12, 0, 0, 0, time.UTC)
 	far := time.Date(9000, 1, 1, 0, 0, 0, 0, time.UTC)
 	maxds := []time.Duration{5 * time.Minute, 5 * time.Minute, 5 * time.Minute, time.Nanosecond, 0, -time.Second, time.Duration(1<<63 - 1), time.Hour}
@@ -138,14 +138,14 @@ func TestVerif_C08Cache(t *testing.T) {
 				if !isNil {
 					ref[op.user] = &c08cRef{admin: op.admin, ts: now, set: true}
 				}
-				coqOps = append(coqOps, fmt.Sprintf("CPut %s %d %v", c08cZ(now), op.user, op.admin))
+				coqOps = append(coqOps, fmt.Sprintf("CPut %s (nm %d) %v", c08cZ(now), op.user, op.admin))
 				coqOuts = append(coqOuts, "OPut")
 				human = append(human, fmt.Sprintf("put(%s,%s,%v)", now.Format(time.RFC3339Nano), users[op.user], op.admin))
 				counts["put"]++
 				continue
 			}
 			isAdmin, valid := c.Get(users[op.user])
-			coqOps = append(coqOps, fmt.Sprintf("CGet %s %d", c08cZ(now), op.user))
+			coqOps = append(coqOps, fmt.Sprintf("CGet %s (nm %d)", c08cZ(now), op.user))
 			coqOuts = append(coqOuts, fmt.Sprintf("OGet %v %v", isAdmin, valid))
 			human = append(human, fmt.Sprintf("get(%s,%s)=%v,%v", now.Format(time.RFC3339Nano), users[op.user], isAdmin, valid))
 			counts["get"]++
@@ -191,6 +191,18 @@ func TestVerif_C08Cache(t *testing.T) {
 	}
 	var sb strings.Builder
 	sb.WriteString("From Coq Require Import List NArith ZArith Bool.\nFrom KM Require Import Base.Cases Model.AdminCache.\nImport ListNotations.\nOpen Scope N_scope.\n")
+	{
+		// the users of the traces as byte strings (the cache is keyed by the Go string)
+		var names []string
+		for _, u := range users {
+			var bs []string
+			for _, c := range []byte(u) {
+				bs = append(bs, fmt.Sprint(int(c)))
+			}
+			names = append(names, "["+strings.Join(bs, "; ")+"]")
+		}
+		sb.WriteString("Definition nm (k : N) : list N := nth (N.to_nat k) [" + strings.Join(names, "; ") + "] [255].\n")
+	}
 	sb.WriteString("Definition bad_trace (c : Z * bool * list cop * list cout) : bool := let '(maxd, isnil, ops, outs) := c in negb (couts_eqb (crun maxd (if isnil then None else Some []) ops) outs).\n")
 	var parts []string
 	for off, k := 0, 0; off < len(cases); off, k = off+500, k+1 {
